@@ -16,7 +16,7 @@ Known == {"Reset", "TPutBegin", "TPutEnd", "TPutAck", "TTake", "TCopied", "CopyF
           "CDeleteBegin", "CExit", "CDeleted", "EmptyBegin", "EmptyEnd", "IFReset", "DefReset", "CPauseBegin",
           "CPauseEnd", "TPauseBegin", "TPauseEnd", "CPutBegin", "CRecv", "KRecv", "KSample", "IFStart", "IFPush",
           "IFPop", "TouchCalc", "FinDone", "ReqStart", "ReqExiting", "ReqClamp", "DefStart", "DefPush", "DefPop",
-          "ScanIF", "ScanDef", "ScanTimedOut", "KSub", "KIdent", "KEval", "KRdyBegin", "KRdyEnd", "KRdyDone", "Send", "KCmd",
+          "ScanIF", "ScanDef", "ScanTimedOut", "KSub", "KIdent", "KEval", "KRdyBegin", "KRdyEnd", "KRdyDone", "KCls", "Send", "KCmd",
           "HRecv", "HPubAck", "HStatsT", "HStatsC", "HStatsK", "HEnd", "TExit", "HStatsTopics", "QSDone"}
 
 TraceInit == Init /\ l = 1 /\ TLCSet(1, 1) /\ TLCSet(2, <<>>)
@@ -77,6 +77,7 @@ TNext ==
   \/ IsEvent("KIdent") /\ AKIdent(E.k, E.tmo, E.sample)
   \/ IsEvent("KSub") /\ AKSub(E.k, E.c)
   \/ IsEvent("KEval") /\ AKEval(E.k, E.ready, E.rdy, E.inflight, E.paused, l)
+  \/ IsEvent("KCls") /\ AKCls(E.k)
   \/ IsEvent("KRdyBegin") /\ AKRdyBegin(E.k, E.n)
   \/ IsEvent("KRdyEnd") /\ AKRdyEnd(E.k, E.n)
   \/ IsEvent("KRdyDone") /\ AKRdyDone(E.k, l, E.now, E.sig)
